@@ -38,7 +38,7 @@ def records(run_id, trace_path, root, src_prefixes, dst_prefixes, cfg, exit_code
             return p[len(root) + 1:] or "."
         return p or ""
     out = [{"ev": "reset", "run": run_id, "driver": cfg.get("driver", ""), "fsync": bool(cfg.get("fsync")), "reflink": cfg.get("reflink", "auto"),
-            "protected": list(protected), "special": list(special), "peakBase": peak_base, "fdSlack": fd_slack}]
+            "protected": list(protected), "special": list(special), "peakBase": peak_base, "fdSlack": fd_slack, "workers": int(cfg.get("workers") or 0)}]
     n = 0
     for e in s2e.events(trace_path, cl):
         if e["ev"] in ("exit", "read", "seek", "readdir", "fiemap"):
@@ -50,7 +50,7 @@ def records(run_id, trace_path, root, src_prefixes, dst_prefixes, cfg, exit_code
         d["ret"] = e["ret"] if isinstance(e["ret"], int) else -99
         out.append(d)
         n += 1
-    out.append({"ev": "end", "exit": exit_code, "mustSucceed": bool(must_succeed), "missing": missing})
+    out.append({"ev": "end", "exit": exit_code, "mustSucceed": bool(must_succeed), "missing": missing, "partial": only is not None})
     return out, n
 
 def judge(all_records, nruns, chunk_events=150000):
@@ -100,7 +100,7 @@ def traced_tree_run(binary, sc, driver, run_id, cfg, plan=None, workers=None, sp
         st["inject"] = inject
     if extra_strace:
         st["extra"] = extra_strace
-    cfg = dict(cfg, driver=driver)
+    cfg = dict(cfg, driver=driver, workers=workers or 0)
     o = nsplane.run_one(binary, sc, driver, run_id, strace=st, workers=workers, env=env, keep=True, timeout=timeout)
     srcs = src_prefixes or sorted({a["norm"][0] for a in sc["sources"] if a["norm"] and a["norm"][0] not in (".", "/ABS")} or {"s"})
     recs, n = records(run_id, o["_run"]["trace"], o["_run"]["root"], srcs, list(dst_prefixes), cfg, o["exit"], protected=protected,
